@@ -343,7 +343,7 @@ def check_item(item):
             r.update(key=label, input=label, verdict='observation', detail='task assembly did not finish in 120s')
             out.append(r)
             continue
-        if resp[0][0] == 'refused':
+        if resp[0][:1] == ('refused',):
             r = dict(base)
             r.update(key=label, input=label, verdict='skipped', detail='task refused: %s' % str(resp[0][1])[:200])
             out.append(r)
